@@ -1104,3 +1104,10 @@ TABLE["C06"] += [
     N("guard-type-lookup-moved-into-a-helper", (MW, _CT_A, '            check_type = self._check_type(arg.ctype.typename, is_constructor=not wrap_datatypes)\n'), (MW, _CT_B, '            check_type = self._check_type(arg.ctype.typename)\n'), (MW, _CT_ANCHOR + "\n", "    def _check_type(self, typename, is_constructor=False):\n        check_type = self.data_type_param.get(typename.name)\n\n        if self.data_type.get(check_type):\n            check_type = self.data_type[check_type]\n\n        if check_type is None:\n            check_type = self._format_type_name(typename, separator='.', is_constructor=is_constructor)\n\n        return check_type\n\n" + _CT_ANCHOR + "\n")),
     B("guard-type-lookup-cached-by-short-name", {"M8"}, (MW, _CT_A, '            check_type = self._check_type(arg.ctype.typename, is_constructor=not wrap_datatypes)\n'), (MW, _CT_B, '            check_type = self._check_type(arg.ctype.typename)\n'), (MW, _CT_ANCHOR + "\n", "    def _check_type(self, typename, is_constructor=False):\n        if not hasattr(self, 'check_types'):\n            self.check_types = {}\n        key = (typename.instantiated_name(), is_constructor)\n        check_type = self.check_types.get(key)\n        if check_type is None:\n            check_type = self.data_type_param.get(typename.name)\n\n            if self.data_type.get(check_type):\n                check_type = self.data_type[check_type]\n\n            if check_type is None:\n                check_type = self._format_type_name(typename, separator='.', is_constructor=is_constructor)\n            self.check_types[key] = check_type\n\n        return check_type\n\n" + _CT_ANCHOR + "\n")),
 ]
+TABLE["C11"] += [
+    B("insert-routine-allocates-base-handle-for-every-class", {"H4"},
+      (MW, "                if collector_func[1].parent_class:", "                if True or collector_func[1].parent_class:", 1)),
+    B("dot-m-constructor-ignores-parents-on-the-ignore-list", {"H4"},
+      (MW, "                instantiated_class.parent_class,\n                instantiated_class.ctors,", "                '' if str(instantiated_class.parent_class) in self.ignore_classes else instantiated_class.parent_class,\n                instantiated_class.ctors,")),
+    B("grouping-by-consecutive-runs-groupby", {"H8"}, (MW, _GM_OLD, _GM_GROUPBY)),
+]
